@@ -270,9 +270,30 @@ theorem one_per_template_state (hl : c.legacy = false) (hr : c.racy = false) (t 
 /-! ### name clashes -/
 
 /-- **clash_never_reused**: when the create is answered AlreadyExists and the conflicting ObjectSet
-is archived or has a different spec, a pass that completes bumps the collision counter (holds in
-every state, reachable or not). -/
-theorem clash_never_reused (s : State) (op : Op) : ClashNeverReused (ctxOf s op) (before s) (after c s op) := by
+is archived, has a different spec, or is an OLDER revision of the deployment (it reports a revision
+and another ObjectSet of the deployment reports a higher one – a roll-back to a template whose
+ObjectSet is still live, spec equal), a pass that completes bumps the collision counter: the clash
+is never resolved by reusing the ObjectSet.  Every history, every cache view. -/
+theorem clash_never_reused (hl : c.legacy = false) (hr : c.racy = false) (t : Nat) (ops : List Op) (op : Op) :
+    ClashNeverReused (ctxOf (run c (init t) ops) op) (before (run c (init t) ops))
+      (after c (run c (init t) ops) op) := by
+  have hi := reachable_inv hl hr t ops
+  generalize run c (init t) ops = s at hi
+  intro r hr' hex
+  rcases isOd_cases op with h | ⟨f, v, sf, h⟩
+  · rw [(after_non_od s op h).1] at hr'; cases hr'
+  · subst h
+    obtain ⟨conf, hc, hn, himp⟩ := odPass_exists_old hi f v sf r hr' hex
+    refine ⟨conf, hc, hn, ?_⟩
+    intro hcl hres
+    exact himp hcl (resStr_ok.mp hres)
+
+/-- The archived / different-spec part holds in every state, reachable or not. -/
+theorem clash_never_reused_any_state (s : State) (op : Op) :
+    ∀ r ∈ (after c s op).reqs, r.outcome = .exists →
+      ∃ conf ∈ s.sets, conf.name = r.obj.name ∧
+        ((conf.archived = true ∨ conf.spec ≠ s.template) → (after c s op).res = "ok" →
+          (after c s op).cc = s.cc + 1) := by
   intro r hr' hex
   rcases isOd_cases op with h | ⟨f, v, sf, h⟩
   · rw [(after_non_od s op h).1] at hr'; cases hr'
@@ -339,6 +360,32 @@ theorem create_attempted_when_needed (s : State) :
   injection hth' with hth'
   subst hth'
   exact odPass_reqs_of_create (plan_fresh_create hp ht hrep hnew)
+
+/-- **pass_acts_when_needed** (liveness per pass): a pass that completes – whatever its cache view –
+for an unpaused deployment with phases, all of whose ObjectSets report a revision and whose newest
+ObjectSet does not carry the template hash, creates exactly one ObjectSet or bumps the collision
+counter; it never does nothing.  (Sole exception, outside the environment assumption on foreign
+ObjectSets: the name is taken by a live ObjectSet of equal spec that carries the deployment's
+controller reference but not its labels – `OwnedUnlabelledClash`.) -/
+theorem pass_acts_when_needed (hl : c.legacy = false) (hr : c.racy = false) (t : Nat) (ops : List Op)
+    (f : Fault) (v : View) (sf : Bool) :
+    PassActs (ctxOf (run c (init t) ops) (.od f v sf)) (before (run c (init t) ops))
+      (after c (run c (init t) ops) (.od f v sf)) := by
+  have hi := reachable_inv hl hr t ops
+  generalize run c (init t) ops = s at hi
+  intro hp ht hres hrep tH hth hnew
+  have hres' : (odPass c s f v sf).res = .ok := resStr_ok.mp hres
+  have hth' : (odPass c s f v sf).st.th = some tH := hth
+  rw [odPass_th hres'] at hth'
+  injection hth' with hth'
+  subst hth'
+  have hreq : (after c s (.od f v sf)).reqs = (odPass c s f v sf).reqs := rfl
+  rcases odPass_acts hi f v sf hp ht hres' hrep hnew with ⟨new, h⟩ | h | ⟨new, conf, h, hcs, hcn, hm, ho, ha, hsp⟩
+  · left
+    unfold succ; rw [hreq, h]; rfl
+  · right; left; exact h
+  · right; right
+    refine ⟨⟨new, .exists⟩, by rw [hreq, h]; simp, rfl, conf, hcs, hcn, hm, ho, ha, hsp⟩
 
 /-- A clash caused by a roll-back (the conflicting ObjectSet is an older revision of this
 deployment) is never mistaken for a slow cache: the counter is bumped, whatever its spec. -/
@@ -513,7 +560,7 @@ theorem model_satisfies_monitor (hl : c.legacy = false) (hr : c.racy = false) (t
     if_neg (not_not_intro (create_only_when hl hr t ops op)),
     if_neg (not_not_intro (created_spec_eq_template_and_previous_all hl hr t ops op)),
     if_neg (not_not_intro (one_per_template hl hr t ops op)),
-    if_neg (not_not_intro (clash_never_reused _ op)),
+    if_neg (not_not_intro (clash_never_reused hl hr t ops op)),
     if_neg (not_not_intro (counter_monotone _ op))]
   have h1 : ¬ (isOd (some op) = true ∧ ¬ Untouched (before (run c (init t) ops)) (after c (run c (init t) ops) op)) := by
     rintro ⟨ho, hn⟩
@@ -539,7 +586,21 @@ theorem model_satisfies_monitor (hl : c.legacy = false) (hr : c.racy = false) (t
       simp only [Bool.or_eq_false_iff, Bool.not_eq_false', decide_eq_true_eq, List.isEmpty_iff] at hb
       obtain ⟨⟨hp, ht, hres, hrep, hnew⟩, hempty⟩ := hb
       exact hprog hp ht hres hrep tH hth hnew hempty
-  rw [if_neg h1, if_neg h2, if_neg h3]
+  have h4 : ¬ (isOd (some op) = true ∧
+      passActsB (ctxOf (run c (init t) ops) op) (before (run c (init t) ops)) (after c (run c (init t) ops) op) = false) := by
+    rintro ⟨ho, hb⟩
+    rcases isOd_cases op with h | ⟨f, v, sf, h⟩
+    · rw [h] at ho; cases ho
+    · subst h
+      have hacts := pass_acts_when_needed hl hr t ops f v sf
+      unfold passActsB at hb
+      split at hb
+      · cases hb
+      · rename_i tH hth
+        simp only [Bool.or_eq_false_iff, Bool.not_eq_false', decide_eq_true_eq, decide_eq_false_iff_not] at hb
+        obtain ⟨⟨hp, ht, hres, hrep, hnew⟩, hnone⟩ := hb
+        exact hnone (hacts hp ht hres hrep tH hth hnew)
+  rw [if_neg h1, if_neg h2, if_neg h3, if_neg h4]
 
 /-! ### the fix and the assumption are both needed -/
 
@@ -588,6 +649,18 @@ example :
     s.cc = 1 ∧ s.log = [1, 2, 3] ∧
     s.sets.map (fun o => (o.name, o.spec, o.rev, o.archived, o.prev)) =
       [(100, 1, 1, true, []), (200, 2, 2, false, [100]), (101, 1, 3, false, [100, 200])] := by
+  decide
+
+/-- Non-vacuity of the roll-back clause: template 1 → 2 → 1 while the ObjectSet of template 1 is
+still LIVE (not archived, equal spec, revision 1 < 2): the clash bumps the counter, the next pass
+creates a new ObjectSet, which gets revision 3; nothing existing is touched. -/
+example :
+    let s := run (demoCfg false false) (init 1)
+      [.od .none .fresh false, .os 0, .edit 2, .od .none .fresh false, .os 1, .edit 1,
+       .od .none .fresh false, .od .none .hideList false, .os 2]
+    s.cc = 1 ∧ s.log = [1, 2, 3] ∧
+    s.sets.map (fun o => (o.name, o.spec, o.rev, o.archived, o.prev)) =
+      [(100, 1, 1, false, []), (200, 2, 2, false, [100]), (101, 1, 3, false, [100, 200])] := by
   decide
 
 end Pko.Props.C07
